@@ -234,6 +234,8 @@ class NF:
             name = e.func.id
         if name == 'len' and len(args) == 1 and args[0][0] == 'name' and args[0][1] in self.batch_names:
             return ('BATCH',)
+        if dotted in ('numpy.ones_like', 'numpy.zeros_like') and len(args) == 1 and args[0][0] == 'name' and args[0][1] in self.batch_names:
+            return ('call', dotted.split('.')[1][:-5], ('BATCH',))
         if dotted and dotted in self.prog.functions and not e.keywords and depth <= 6:
             g = self.prog.functions[dotted]
             if g.cls is None and g.outer is None and g.name.startswith('_') and len(g.params) == len(args):
